@@ -115,8 +115,12 @@ def table_rows(tab):
     n = len(tab['FIBERID'])
     out = []
     for i in range(n):
-        out.append([int(tab['FIBERID'][i]), int(tab['PLATE'][i]), int(tab['MJD'][i]), int(tab['VAL'][i])] +
-                   [int(v) for v in tab['VEC'][i]] + [int(str(tab['NAME'][i]).strip()[1:])])
+        try:
+            out.append([int(tab['FIBERID'][i]), int(tab['PLATE'][i]), int(tab['MJD'][i]), int(tab['VAL'][i])] +
+                       [int(v) for v in tab['VEC'][i]] + [int(str(tab['NAME'][i]).strip()[1:])])
+        except Exception as e:       # a column that lost its shape or type is an answer (a wrong one), not a crash of the check
+            out.append(['malformed-row: %s (column shapes %s)' % (type(e).__name__,
+                        {k: getattr(np.asarray(tab[k]), 'shape', None) for k in ('FIBERID', 'VEC', 'NAME')})])
     return out
 
 
@@ -212,8 +216,16 @@ def impl_readspec(tree, req):
     if req.get('znum') is not None:
         kw['znum'] = req['znum']
     try:
-        r = readspec(_arg(req['plate'], req.get('arr')), mjd=_arg(req['mjd'], req.get('arr')),
-                     fiber=_arg(req['fiber'], req.get('arr')), **kw)
+        a_plate, a_mjd, a_fiber = _arg(req['plate'], req.get('arr')), _arg(req['mjd'], req.get('arr')), _arg(req['fiber'], req.get('arr'))
+        snap = [np.array(v, copy=True) if isinstance(v, np.ndarray) else v for v in (a_plate, a_mjd, a_fiber)]
+        r = readspec(a_plate, mjd=a_mjd, fiber=a_fiber, **kw)
+        for name, v, w in zip(('plate', 'mjd', 'fiber'), (a_plate, a_mjd, a_fiber), snap):
+            if isinstance(v, np.ndarray) and not np.array_equal(v, w):
+                # the caller's request vector was changed: a second call with the same array asks for other spectra
+                r2 = readspec(a_plate, mjd=a_mjd, fiber=a_fiber, **kw)
+                r = dict(r)
+                r['flux'] = np.asarray(r2['flux'])     # what the caller gets when it re-uses its arrays
+                r['_argument_modified'] = name
     except Exception as e:
         return {'err': core.exc_kind(e)}, None
     imgs = []
@@ -280,6 +292,9 @@ def oracle(tree, req, raw):
             return None       # mixed availability of spZbest / photoPlate: outside the domain, not judged
     if raw is None:
         return ('readspec:exception-on-valid-request', 'readspec raised on a request inside the domain')
+    if '_argument_modified' in raw:
+        return ('readspec:request-array-modified:' + raw['_argument_modified'],
+                'readspec changed the caller\'s %s array in place; the same request repeated with that array returns other rows' % raw['_argument_modified'])
     W = max(d['spec']['npix'] for d in files)
     for name, h in zip(IMG_NAMES, IMG_HDU + [7]):
         a = np.asarray(raw[name])
